@@ -115,6 +115,15 @@ fn cases_structural(_rng: &mut Rng, sink: &mut dyn FnMut(J) -> bool) {
                     }
                 }
             }
+            // near-identical issuer identifiers registered to DIFFERENT keys
+            for (i, variant) in ["{}/", "{}//", "{}/.", "{} ", " {}", "{}#", "{}?", "{}\n", "{}\u{0}", "UPPER", "HOSTUPPER", "PCT", "PORT", "{}%2F", "{}\u{2f}\u{2f}\u{2f}", "DROPLAST", "{}/index"].iter().enumerate() {
+                for (claimed, signer) in [("a", "a"), ("b", "b"), ("a", "b"), ("b", "a")] {
+                    if i % 2 == 1 && claimed == signer && claimed == "a" {
+                        continue;
+                    }
+                    muts.push(json!({"kind": "issuer_variant", "variant": variant, "claimed": claimed, "signer": signer}));
+                }
+            }
             // attacker key shipped inside the protected header
             for signer in ["ES256-other", "EdDSA-other", "HS256-other"] {
                 for with_kid in [false, true] {
@@ -144,6 +153,15 @@ fn cases_padding(_rng: &mut Rng, sink: &mut dyn FnMut(J) -> bool) {
                 for text in ["A", " ", "\n", "%3D", "\u{0}"] {
                     if !sink(case_of(&cfg, json!({"kind": "append", "part": part, "text": text}))) {
                         return;
+                    }
+                }
+                // single characters (whitespace class incl. Unicode whitespace, padding, separators) put
+                // in front of / behind each part; header + front = position 0 of the whole compact text
+                for text in [" ", "\n", "\t", "\r", "\r\n", "\u{b}", "\u{c}", "\u{85}", "\u{a0}", "\u{1680}", "\u{2003}", "\u{2028}", "\u{2029}", "\u{202f}", "\u{3000}", "\u{feff}", "\u{200b}", "=", "  "] {
+                    for kind in ["prepend", "append"] {
+                        if !sink(case_of(&cfg, json!({"kind": kind, "part": part, "text": text}))) {
+                            return;
+                        }
                     }
                 }
             }
@@ -260,6 +278,10 @@ pub fn mutate(cfg: &Cfg, p: &Parts, m: &J) -> Option<(Parts, J)> {
             let s: String = cur.iter().collect::<String>() + m["text"].as_str()?;
             Some((set_part(p, part, &s), own_key))
         }
+        "prepend" => {
+            let s: String = m["text"].as_str()?.to_string() + &cur.iter().collect::<String>();
+            Some((set_part(p, part, &s), own_key))
+        }
         "strip_sig" => Some((set_part(p, "signature", ""), own_key)),
         "truncate_sig" => {
             let n = m["n"].as_u64()? as usize;
@@ -373,6 +395,30 @@ pub fn mutate(cfg: &Cfg, p: &Parts, m: &J) -> Option<(Parts, J)> {
             let jwt = jsonwebtoken::encode(&header, &J::Object(pl), &keys::issuer_enc(&signer)).ok()?;
             Some((Parts { jwt, disclosures: p.disclosures.clone(), kb: p.kb.clone() }, J::Object(resolver)))
         }
+        "issuer_variant" => {
+            // issuer a = the credential's iss (key: family key), issuer b = a near-identical string (key: other key)
+            let fam = keys::alg_of(&cfg.alg);
+            let other = format!("{fam}-other");
+            let mut pl = p.payload()?;
+            let a = pl.get("iss")?.as_str()?.to_string();
+            let b = match m["variant"].as_str()? {
+                "UPPER" => a.to_uppercase(),
+                "HOSTUPPER" => a.replacen("issuer.example", "ISSUER.EXAMPLE", 1),
+                "PCT" => a.replacen("/i", "/%69", 1),
+                "PORT" => a.replacen("issuer.example", "issuer.example:443", 1),
+                "DROPLAST" => a[..a.len() - 1].to_string(),
+                v => v.replace("{}", &a),
+            };
+            if a == b {
+                return None;
+            }
+            let claimed = if m["claimed"] == "a" { &a } else { &b };
+            pl.insert("iss".into(), json!(claimed));
+            let signer = if m["signer"] == "a" { fam.to_string() } else { other.clone() };
+            let jwt = sign(&J::Object(pl), &signer);
+            let resolver = json!({ a.clone(): fam, b.clone(): other });
+            Some((Parts { jwt, disclosures: p.disclosures.clone(), kb: p.kb.clone() }, resolver))
+        }
         "embedded_jwk" => {
             let signer = m["signer"].as_str()?;
             let alg = keys::alg_of(signer);
@@ -458,6 +504,16 @@ pub fn check(case: &J) -> Verdict {
                 ),
             };
         }
+    }
+    if m["kind"] == "issuer_variant" && m["claimed"] == m["signer"] {
+        // each issuer's own token, signed by the key registered for exactly its iss
+        return match sut::verify_with(&text, &key, None, None, &cfg.format) {
+            Out::Ok(_) => Verdict::Pass,
+            o => fail(
+                format!("token with iss {} signed by the key the resolver has for exactly that iss (resolver {}) -> {}", tampered.payload().and_then(|p| p.get("iss").cloned()).unwrap_or(J::Null), jstr(&key), o.brief()),
+                "accepted",
+            ),
+        };
     }
     if m["kind"] == "issuer_keyed" && m["signer"] == "victim" {
         // signed by the key the resolver returns for the payload's iss: must be accepted whatever the header says
